@@ -349,3 +349,11 @@ def d6(cx: Cx, ob: Ob) -> None:
                 ob.violate(fn.qualname, fn.where, f"discover does not forward `{p}` unchanged to the helper", detail=f"forward:{p}")
     if not calls:
         ob.undecide("discover does not call _get_uri_prefix_to_luids")
+
+
+
+@obligation("C19-X2", "state closure (shared with C05): all derived converter state is maintained by _index, lookup tables are never rebound after construction, and no query method writes converter state (no stale caches)", floor=5)
+def x2(cx: Cx, ob: Ob) -> None:
+    from ..rules import state_closure
+
+    state_closure(cx, ob)
